@@ -121,7 +121,20 @@ _FIELDS = {
     "AN": ["    v: Any = 0", "    nc: Any = field(default=0, compare=False)", "    ni: int = field(default=7, init=False)"],
 }
 
-VALUES = [0, 1, True, False, None, "0", "1", "", "True", "None", "(1, 2)", AE.A, AE.B, (1, 2), (2, 1), ("1", 2), (1, "2"), (),
+def _order_sensitive_pair():
+    """Two frozensets whose elements are incomparable containers, equal as values but iterating in different orders
+    (searched on this interpreter; falls back to a fixed pair)."""
+    for i in range(40):
+        for j in range(i + 1, 40):
+            a, b = frozenset({i}), frozenset({j})
+            if list(frozenset([a, b])) != list(frozenset([b, a])):
+                return frozenset([a, b]), frozenset([b, a])
+    return frozenset([frozenset({0}), frozenset({14})]), frozenset([frozenset({14}), frozenset({0})])
+
+
+_FS_A, _FS_B = _order_sensitive_pair()
+VALUES = [_FS_A, _FS_B, frozenset([(1, 2), (2, 1)]), frozenset([(2, 1), (1, 2)]), frozenset([frozenset(), frozenset({1})]),
+          0, 1, True, False, None, "0", "1", "", "True", "None", "(1, 2)", AE.A, AE.B, (1, 2), (2, 1), ("1", 2), (1, "2"), (),
           (1, True), (1, 1), (True, 1), (0, False), (0, 0), frozenset([1, 2]), frozenset([2, 1]), frozenset([8, 16, 0]), frozenset([16, 8, 0]), frozenset(), frozenset(["a", "b", "c"]),
           frozenset(["c", "b", "a"])]
 
